@@ -111,6 +111,8 @@ inductive Op where
   `r.ReplaceAllString(name, replace)` for every row in order (regexp is external: computed by Go's regexp) -/
   | renameRe (ok : Bool) (names : List String)
   | setAlpha (alphabet : Int)
+  /-- `ReverseComplementSequences(names...)` -/
+  | revcompSeqs (names : List String)
 deriving Repr
 
 /-- the float threshold test of the cleaning functions: `cutoff = num/den` as `float64` -/
@@ -211,6 +213,7 @@ def stepOp (b : Bag) : Op → Bag × String
     if !ok then (b, "err" ++ mapStatus []) else
     let r := renameRegexp names b; (r.1, "ok" ++ mapStatus r.2)
   | .setAlpha a => let r := setAlphabet a b; (r.1, if r.2 then "err" else "ok")
+  | .revcompSeqs names => let r := reverseComplementSequences names b; (r.1, if r.2 then "err" else "ok")
 
 /-- run a history, collecting the states after every step -/
 def runOps : Bag → List Op → List (Bag × String)
